@@ -40,19 +40,25 @@ CORE_LITERALS = ['a', 'ab', '.', '\\', '$', 'a$', '^', '[', ']', '(', ')', '(a)'
                  '{2}', 'a{1,2}', '-', '/', '\n', "'", '"', 'é', '\\b', '\\A', '(?:', '(?=b)', '[a]', '[^a]',
                  '\\1', '1', ' ', '[(', 'US$', 'a[b', 'x(']
 
-SMALL_LITERALS = ['a', 'ab', '$', '[', '(', '|', 'a|b', '?', '\\', '1', '\n']
+SMALL_LITERALS = ['a', 'ab', '$', '[', '(', 'a|b', '?', '\\', '1']
 
 CLASS_ATOMS = ['AnyDigit()', 'Any()', "AnyBetween('a', 'c')", "AnyFrom('+', '-')", "AnyFrom('|', 'x')",
                "AnyButFrom('(', ')')", 'AnyLetter()', 'AnyWordChar(is_global=True)', 'AnyButWhitespace()',
                "AnyFrom('?', 'a')", "AnyFrom('{', '2', '}')", "AnyFrom('(', 'a')", "AnyButFrom('a')",
-               "AnyFrom('[', 'a')", "AnyFrom(']', 'a')", "AnyFrom('$', 'a')", "AnyFrom('^', 'a')"]
+               "AnyFrom('[', 'a')", "AnyFrom(']', 'a')", "AnyFrom('$', 'a')", "AnyFrom('^', 'a')",
+               "AnyButFrom('\\\\')", "AnyFrom('\\\\', '!')", "AnyFrom('\\\\', 'k')", "AnyButFrom(')')", "AnyFrom('(', ')')",
+               "AnyFrom('\\n', '(')", "AnyBetween('(', '+')"]
 TOKEN_ATOMS = ['Newline()', 'Backslash()', 'Dollar()', 'Space()']
 ASSERT_ATOMS = ['WordBoundary()', 'NonWordBoundary()']
 REF_ATOMS = ['Backreference(1)', "Backreference('n')", "Conditional('n', 'a', 'b')", "Conditional('n', 'a')"]
 EMPTY = 'Pregex()'
+# one partner per inferred type, so that binary operations meet every pair of types
+TYPED_ATOMS = ["Either('a', 'b')", "Optional('a')", "Capture('a')", "MatchAtLineStart('a')", "FollowedBy('a', 'b')",
+               "NotPrecededBy('b', 'a')", "Group('ab')", "OneOrMore(AnyDigit())"]
 
-SMALL_OTHER = ['AnyDigit()', 'Any()', "AnyFrom('+', '-')", "AnyFrom('|', 'x')", 'AnyLetter()', 'Newline()', 'Backslash()',
-               'Dollar()', 'WordBoundary()', 'Pregex()', 'Backreference(1)', "Conditional('n', 'a', 'b')"]
+SMALL_OTHER = ["AnyButFrom('\\\\')", "AnyFrom('\\\\', '!')", "AnyButFrom(')')", 'AnyDigit()', 'Any()', "AnyFrom('+', '-')", "AnyFrom('|', 'x')", 'AnyLetter()', 'Newline()', 'Backslash()',
+               'WordBoundary()', 'Pregex()', 'Backreference(1)', "Conditional('n', 'a', 'b')",
+               "Either('a', 'b')", "Optional('a')", "Capture('a')", "MatchAtLineStart('a')", "FollowedBy('a', 'b')"]
 
 
 def atom_list(literals, others):
@@ -63,7 +69,7 @@ def atom_list(literals, others):
 
 
 def core_atoms():
-    return atom_list(CORE_LITERALS, CLASS_ATOMS + TOKEN_ATOMS + ASSERT_ATOMS + REF_ATOMS + [EMPTY])
+    return atom_list(CORE_LITERALS, CLASS_ATOMS + TOKEN_ATOMS + ASSERT_ATOMS + REF_ATOMS + TYPED_ATOMS + [EMPTY])
 
 
 def small_atoms():
@@ -71,4 +77,4 @@ def small_atoms():
 
 
 def tiny_atoms():
-    return atom_list(['a', '[', 'a$', 'a|b'], ['AnyDigit()', "AnyFrom('|', 'x')", 'Pregex()', 'Newline()'])
+    return atom_list(['a', '[', 'a|b'], ['AnyDigit()', "AnyFrom('|', 'x')", 'Pregex()', "Either('a', 'b')"])
